@@ -17,7 +17,7 @@ import (
 var blockMutations = []string{
 	"chainid", "height", "time+1ns", "time-1ns", "time-prev", "lastblockid", "lastcommithash", "datahash",
 	"valhash", "nextvalhash", "conshash", "apphash", "resultshash", "evidencehash", "proposer-unknown",
-	"proposer-other", "version", "commit-badsig", "commit-dropquorum", "commit-round", "commit-forged-nil", "commit-nil-padded",
+	"proposer-other", "version", "commit-badsig", "commit-dropquorum", "commit-round", "commit-forged-nil", "commit-nil-padded", "first-lastcommit",
 }
 
 var validMutations = map[string]bool{"proposer-other": true}
@@ -86,6 +86,19 @@ func mutateBlock(b *types.Block, mut string, st sm.State, salt int, chainID stri
 		}
 	case "version":
 		b.Version.Block++
+	case "first-lastcommit":
+		// the chain's first block must carry an empty last commit; here it has entries
+		if !first {
+			return false
+		}
+		sigs := []types.CommitSig{types.NewCommitSigAbsent()}
+		if salt%2 == 0 && st.Validators.Size() > 0 {
+			v := st.Validators.Validators[0]
+			sigs = []types.CommitSig{{BlockIDFlag: types.BlockIDFlagNil, ValidatorAddress: v.Address, Timestamp: b.Time, Signature: append(tmhash.Sum([]byte("made-up")), tmhash.Sum([]byte("made-up-2"))...)}}
+		}
+		b.LastCommit = types.NewCommit(0, 0, types.BlockID{}, sigs)
+		b.LastCommitHash = nil
+		b.Hash() // refill
 	case "commit-badsig", "commit-dropquorum", "commit-round", "commit-forged-nil", "commit-nil-padded":
 		if first || b.LastCommit == nil || len(b.LastCommit.Signatures) == 0 {
 			return false
